@@ -181,16 +181,18 @@ static int harness_sockets(Ctx& c) {
 
 static torrent::HandshakeManager* hm() { return torrent::manager->handshake_manager(); }
 
-static uint16_t fd_remote_port(int fd) {
+static bool fd_remote_is(int fd, const std::string& ip, uint16_t port) {
   sockaddr_in a{};
   socklen_t n = sizeof a;
-  if (fd < 0 || getpeername(fd, (sockaddr*)&a, &n) != 0) return 0;
-  return ntohs(a.sin_port);
+  if (fd < 0 || getpeername(fd, (sockaddr*)&a, &n) != 0 || a.sin_family != AF_INET) return false;
+  char buf[64];
+  inet_ntop(AF_INET, &a.sin_addr, buf, sizeof buf);
+  return ntohs(a.sin_port) == port && ip == buf;
 }
-static torrent::Handshake* find_handshake(uint16_t port) {
+static torrent::Handshake* find_handshake(const std::string& ip, uint16_t port) {
   auto* base = (torrent::HandshakeManager::base_type*)hm();   // private base (read only)
   for (auto& h : *base)
-    if (h && h->file_descriptor() >= 0 && fd_remote_port(h->file_descriptor()) == port) return h.get();
+    if (h && h->file_descriptor() >= 0 && fd_remote_is(h->file_descriptor(), ip, port)) return h.get();
   return nullptr;
 }
 
@@ -232,8 +234,8 @@ static std::string pi_str(Ctx& c, SPeer& p) {
 static std::string row(Ctx& c, SPeer& p, const KernelView& kv, bool remember_fd) {
   std::ostringstream o;
   o << "p" << p.id << "=";
-  torrent::PeerConnectionBase* pcb = (c.removed || p.port == 0) ? nullptr : c.S->find_connection(c.T, p.port);
-  torrent::Handshake* h = p.port == 0 ? nullptr : find_handshake(p.port);
+  torrent::PeerConnectionBase* pcb = (c.removed || p.port == 0) ? nullptr : c.S->find_connection(c.T, p.ip, p.port);
+  torrent::Handshake* h = p.port == 0 ? nullptr : find_handshake(p.ip, p.port);
   if (pcb != nullptr) {
     int fd = pcb->file_descriptor();
     if (remember_fd) { p.lib_fd = fd; p.lib_ino = sock_inode(fd); }
@@ -367,8 +369,22 @@ static void parse_wire(Ctx& c) {
   }
 }
 
+#include <sys/ioctl.h>
+static bool lib_has_unread(Ctx& c) {
+  for (auto& p : c.peers) {
+    if (p->port == 0) continue;
+    int fd = -1;
+    torrent::PeerConnectionBase* pcb = c.removed ? nullptr : c.S->find_connection(c.T, p->ip, p->port);
+    if (pcb != nullptr) fd = pcb->file_descriptor();
+    else if (torrent::Handshake* h = find_handshake(p->ip, p->port)) fd = h->file_descriptor();
+    int n = 0;
+    if (fd >= 0 && ioctl(fd, FIONREAD, &n) == 0 && n > 0) return true;
+  }
+  return false;
+}
+
 static void pump_all(Ctx& c) {
-  int idle = 0;
+  int idle = 0, settle_tries = 0;
   for (int r = 0; r < 100000 && idle < 2; r++) {
     bool moved = false;
     for (auto& p : c.peers) {
@@ -387,6 +403,12 @@ static void pump_all(Ctx& c) {
       for (auto& p : c.peers) if (p->w.fd != -1 && p->w.recv_available() > 0) moved = true;
     }
     if (moved) idle = 0; else idle++;
+    if (idle >= 2 && settle_tries < 60 && lib_has_unread(c)) {
+      // bytes a peer sent are still in the library-side socket's receive queue: loopback delivery lagged (loaded machine)
+      settle_tries++;
+      usleep(300);
+      idle = 0;
+    }
   }
   parse_wire(c);
 }
@@ -557,7 +579,7 @@ static bool do_action(Ctx& c, const Step& st) {
     c.S->connect_out(c.T, p.ip, p.port);
     pump_all(c);
   } else if (!st.kind.compare(0, 7, "budget:")) {
-    Session::set_send_budget(p.port, atoll(st.kind.c_str() + 7));
+    Session::set_send_budget(p.ip, p.port, atoll(st.kind.c_str() + 7));
     c.ev.push_back("A" + std::to_string(p.id) + ":" + st.kind);
     pump_all(c);
   } else if (st.kind == "max") {
@@ -855,8 +877,8 @@ static std::string run_case(const std::string& line) {
     KernelView kv = kernel_view();
     for (auto& p : c.peers) {
       if (p->lib_fd < 0) continue;
-      torrent::PeerConnectionBase* pcb = (p->port && !c.removed) ? S.find_connection(c.T, p->port) : nullptr;
-      torrent::Handshake* h = p->port ? find_handshake(p->port) : nullptr;
+      torrent::PeerConnectionBase* pcb = (p->port && !c.removed) ? S.find_connection(c.T, p->ip, p->port) : nullptr;
+      torrent::Handshake* h = p->port ? find_handshake(p->ip, p->port) : nullptr;
       bool still = (pcb && sock_inode(pcb->file_descriptor()) == p->lib_ino) || (h && sock_inode(h->file_descriptor()) == p->lib_ino);
       int n = closes_of(p->lib_ino);
       cl += "p" + std::to_string(p->id) + ":" + (still ? "live" : std::to_string(n)) + ",";
@@ -873,7 +895,7 @@ static std::string run_case(const std::string& line) {
     std::string r = row(c, p, kv, false);
     std::string want_prefix = "p" + std::to_string(p.id) + "=N;pi=";
     if (strcmp(when, "post") == 0 && fault != 'M' && fault != 'T' && fault != 'X' && fault != 'R' && fault != 'H') {
-      torrent::Handshake* h = p.port ? find_handshake(p.port) : nullptr;
+      torrent::Handshake* h = p.port ? find_handshake(p.ip, p.port) : nullptr;
       if (h != nullptr && h->download() == nullptr) return;   // an incoming handshake that has not named its torrent yet is nobody's
     }
     if (r.compare(0, want_prefix.size(), want_prefix) != 0) { c.viol.push_back(std::string("row-not-released:") + when + ":" + r); return; }
